@@ -329,6 +329,10 @@ class C15(Property):
                 else:
                     ops.append(["remove", k])
             threads.append(ops)
+        if rng.random() < 0.2:
+            # nothing but lookups once the ring stands (a write during a lookup is a data race for -race)
+            threads = [[["add", k] for k in range(len(nodes))] + [["get", rng.randrange(len(ps))] for _ in range(60)]] + \
+                      [[["get", rng.randrange(len(ps))] for _ in range(rng.randint(40, 80))] for _ in range(rng.randint(2, 5))]
         return {"kind": "free", "r": R, "nodes": nodes, "threads": threads, "probes": ps}
 
     def _free_judge(self, case, obs):
